@@ -82,6 +82,8 @@ pub fn run(case_name: &str, ctx: &mut Ctx, one: Option<&str>, rng: &mut Rng, bud
     for kind in 0..3u64 { for nlines in [0u64, 1, 2, 5, 40] { for consume in [0u64, 1, 3, 100] { for flags in 0..4u64 {
         let v = vec![kind, nlines, consume, 2, flags, 7 + nlines]; let s = fmt_list(&v); ctx.trial(&s, false, || case(&v));
     } } } }
+    // long inputs (several compressed blocks / buffer refills), rewound in the middle of a pass
+    for kind in 0..3u64 { for consume in [7u64, 150_000] { let v = vec![kind, 260_000, consume, 2, 2, 99 + kind]; let s = fmt_list(&v); ctx.trial(&s, false, || case(&v)); } }
     for _ in 0..budget.min(300) { let v = vec![rng.below(3), rng.below(200), rng.below(220), 1 + rng.below(3), rng.below(4), rng.next()];
         let s = fmt_list(&v); ctx.trial(&s, false, || case(&v)); }
 }
